@@ -1,21 +1,26 @@
 package main
 
 import (
-	"bytes"
 	"fmt"
 	"go/ast"
-	"go/printer"
 	"go/token"
+	"go/types"
 	"regexp"
 	"sort"
 	"strings"
 )
 
-// R36 SIBLING (C08) – the hand-written collation copy of the tree algorithm agrees, statement by
-// statement (as a multiset, after renaming the documented differences), with the template
-// instantiation it was copied from. A slip applied to one copy only – a dropped increment, a
-// different comparison, a changed arithmetic expression – shows up as a statement that exists in
-// one copy and not in the other.
+// R36 SIBLING (C08) – the hand-written collation copy of the tree algorithm agrees with the
+// template instantiation it was copied from, as a multiset of
+//
+//	(a) calls into the tree/node layer (callee only),
+//	(b) stores to node fields, tree fields, *ref and the descent position (target only),
+//	(c) comparisons over positions and lengths (the quantities on each side, strictness kept).
+//
+// Locals defined once are replaced by their definition, conversions are dropped, and a call that
+// only one copy makes is replaced by the callee's own bag (so extracting or inlining a helper in
+// one copy alone is not a difference). A slip applied to one copy only – a dropped increment, a
+// different helper, a guard with another strictness or another quantity – remains a difference.
 func ruleR36(c *Ctx) {
 	m := c.m
 	var coll, ref *TreeKind
@@ -31,36 +36,119 @@ func ruleR36(c *Ctx) {
 		c.r.undecided("R36", "sibling copies found", "-", "collation or compound tree kind not found", "C08", "C09", "C01")
 		return
 	}
-	norm := func(tk *TreeKind, s string) string {
-		for _, lt := range m.LeafTypes {
-			s = strings.ReplaceAll(s, lt.Origin().Obj().Name(), "LEAF")
-		}
-		s = strings.ReplaceAll(s, tk.Name, "TREE")
-		s = regexp.MustCompile(`\bcolKey\b`).ReplaceAllString(s, "keyS")
-		s = regexp.MustCompile(`\bt\.(cok|bck)\b`).ReplaceAllString(s, "t.CODEC")
-		// the two copies test the leaf tag with opposite polarity and put the arms in opposite order
-		s = regexp.MustCompile(`(\w+)\.tag (==|!=) nodeKindLeaf`).ReplaceAllString(s, "$1.tag ~ nodeKindLeaf")
-		s = regexp.MustCompile(`\s+`).ReplaceAllString(s, " ")
-		return strings.TrimSpace(s)
-	}
-	printNode := func(n any) string {
-		var buf bytes.Buffer
-		printer.Fprint(&buf, c.L.Fset, n)
-		return buf.String()
-	}
 	info := m.Info
-	interesting := regexp.MustCompile(`prefixLen|childrenLen|\bdepth\b|len\(|prefixDiff|splitPrefix|longestPrefix|loLimit`)
-	// bag of (a) calls into the tree/node layer, (b) stores to node/tree fields, to *ref and to the
-	// descent position, (c) comparisons over positions and lengths – each normalised so that
-	// polarity, operand order and the statement form around them do not matter
-	bag := func(tk *TreeKind, u *FuncUnit) map[string]int {
-		out := map[string]int{}
-		add := func(kind, s string) {
-			s = norm(tk, s)
-			if s != "" {
-				out[kind+" "+s]++
-			}
+	keyName := regexp.MustCompile(`^(colKey|keyS|rawKey|key|k|searchKey)$`)
+	interesting := regexp.MustCompile(`prefixLen|childrenLen|depth|len\(|prefixDiff|maxPrefixLen`)
+
+	type bagT map[string]int
+	// atoms of an expression: the quantities it is computed from
+	var atoms func(u *FuncUnit, e ast.Expr, out map[string]bool, depth int)
+	atoms = func(u *FuncUnit, e ast.Expr, out map[string]bool, depth int) {
+		if e == nil || depth > 8 {
+			return
 		}
+		e = ast.Unparen(e)
+		if tv, ok := info.Types[e]; ok && tv.Value != nil {
+			if id, isId := e.(*ast.Ident); isId {
+				out[id.Name] = true // named constant
+			} else if _, isLit := e.(*ast.BasicLit); !isLit {
+				out["const:"+tv.Value.ExactString()] = true
+			} else {
+				out[tv.Value.ExactString()] = true
+			}
+			return
+		}
+		switch x := e.(type) {
+		case *ast.Ident:
+			if d := m.resolveLocal(u, x); d != nil {
+				atoms(u, d, out, depth+1)
+				return
+			}
+			name := x.Name
+			if keyName.MatchString(name) {
+				name = "KEY"
+			}
+			out[name] = true
+		case *ast.SelectorExpr:
+			if info.Selections[x] != nil {
+				out["."+x.Sel.Name] = true
+				return
+			}
+			out[x.Sel.Name] = true
+		case *ast.BinaryExpr:
+			atoms(u, x.X, out, depth+1)
+			atoms(u, x.Y, out, depth+1)
+		case *ast.UnaryExpr:
+			atoms(u, x.X, out, depth+1)
+		case *ast.StarExpr:
+			atoms(u, x.X, out, depth+1)
+		case *ast.IndexExpr:
+			atoms(u, x.X, out, depth+1)
+			atoms(u, x.Index, out, depth+1)
+		case *ast.SliceExpr:
+			atoms(u, x.X, out, depth+1)
+			atoms(u, x.Low, out, depth+1)
+			atoms(u, x.High, out, depth+1)
+		case *ast.CallExpr:
+			if isConversion(info, x) {
+				for _, a := range x.Args {
+					atoms(u, a, out, depth+1)
+				}
+				return
+			}
+			if isBuiltinCall(info, x, "len") && len(x.Args) == 1 {
+				inner := map[string]bool{}
+				atoms(u, x.Args[0], inner, depth+1)
+				out["len("+strings.Join(sortedKeys(inner), "+")+")"] = true
+				return
+			}
+			if isBuiltinCall(info, x, "min") || isBuiltinCall(info, x, "max") {
+				for _, a := range x.Args {
+					atoms(u, a, out, depth+1)
+				}
+				return
+			}
+			name := m.calleeName(x)
+			if i := strings.LastIndex(name, "."); i >= 0 {
+				name = name[i+1:]
+			}
+			out[name+"()"] = true
+		}
+	}
+	side := func(u *FuncUnit, e ast.Expr) string {
+		a := map[string]bool{}
+		atoms(u, e, a, 0)
+		return strings.Join(sortedKeys(a), "+")
+	}
+	storeTarget := func(u *FuncUnit, l ast.Expr) string {
+		l = ast.Unparen(l)
+		for {
+			switch x := l.(type) {
+			case *ast.IndexExpr:
+				l = ast.Unparen(x.X)
+				continue
+			case *ast.SliceExpr:
+				l = ast.Unparen(x.X)
+				continue
+			}
+			break
+		}
+		switch x := l.(type) {
+		case *ast.SelectorExpr:
+			if root, _ := rootVar(info, x); root != nil && m.isTreeRecv(root) {
+				return "t." + x.Sel.Name
+			}
+			return "." + x.Sel.Name
+		case *ast.StarExpr:
+			return "*REF"
+		case *ast.Ident:
+			return x.Name
+		}
+		return "?"
+	}
+
+	var bagOf func(u *FuncUnit, out bagT, calls map[string][]*FuncUnit)
+	bagOf = func(u *FuncUnit, out bagT, calls map[string][]*FuncUnit) {
 		var cmpToken func(e ast.Expr)
 		cmpToken = func(e ast.Expr) {
 			e = ast.Unparen(e)
@@ -69,79 +157,186 @@ func ruleR36(c *Ctx) {
 				if x.Op == token.NOT {
 					cmpToken(x.X)
 				}
+			case *ast.Ident:
+				if d := m.resolveLocal(u, x); d != nil {
+					cmpToken(d)
+				}
 			case *ast.BinaryExpr:
 				switch x.Op {
 				case token.LAND, token.LOR:
 					cmpToken(x.X)
 					cmpToken(x.Y)
 				case token.LSS, token.GEQ, token.GTR, token.LEQ, token.EQL, token.NEQ:
-					a, b := printNode(x.X), printNode(x.Y)
-					if !interesting.MatchString(a + " " + b) {
+					if !interesting.MatchString(types.ExprString(x.X) + " " + types.ExprString(x.Y)) {
 						return
 					}
+					a, b := side(u, x.X), side(u, x.Y)
 					switch x.Op {
-					case token.LSS, token.GEQ: // a < b  and its negation a >= b
-						add("cmp", a+" < "+b)
-					case token.GTR, token.LEQ: // b < a  and its negation a <= b
-						add("cmp", b+" < "+a)
+					case token.LSS, token.GEQ: // a < b and its negation
+						out["cmp "+a+" < "+b]++
+					case token.GTR, token.LEQ: // b < a and its negation
+						out["cmp "+b+" < "+a]++
 					default:
 						if a > b {
 							a, b = b, a
 						}
-						add("cmp", a+" == "+b)
+						out["cmp "+a+" == "+b]++
 					}
 				}
 			}
 		}
-		ast.Inspect(u.Body, func(n ast.Node) bool {
+		var visit func(n ast.Node) bool
+		walkInto := func(n ast.Node, into bagT) {
+			saved := out
+			out = into
+			ast.Inspect(n, visit)
+			out = saved
+		}
+		visit = func(n ast.Node) bool {
 			switch x := n.(type) {
 			case *ast.FuncLit:
 				return false // the leaf constructor differs by design
+			case *ast.SwitchStmt:
+				// a dispatch over the node kind executes one arm: the arms are merged by maximum,
+				// so that four inlined arms and one call of the dispatching helper weigh the same
+				if x.Tag == nil || m.KindType == nil || info.TypeOf(x.Tag) == nil || !types.Identical(info.TypeOf(x.Tag), m.KindType) {
+					return true
+				}
+				merged := bagT{}
+				for _, cl := range x.Body.List {
+					arm := bagT{}
+					for _, st := range cl.(*ast.CaseClause).Body {
+						walkInto(st, arm)
+					}
+					for k, v := range arm {
+						if merged[k] < v {
+							merged[k] = v
+						}
+					}
+				}
+				for k, v := range merged {
+					out[k] += v
+				}
+				return false
 			case *ast.IfStmt:
 				cmpToken(x.Cond)
 			case *ast.ForStmt:
 				if x.Cond != nil {
 					cmpToken(x.Cond)
 				}
+			case *ast.CaseClause:
+				// a tagless switch is an if-chain
+				for _, e := range x.List {
+					if t := info.TypeOf(e); t != nil {
+						if b, ok := t.Underlying().(*types.Basic); ok && b.Info()&types.IsBoolean != 0 {
+							cmpToken(e)
+						}
+					}
+				}
 			case *ast.CallExpr:
 				if isConversion(info, x) {
 					return true
 				}
 				name := m.calleeName(x)
-				if strings.HasSuffix(name, ".Transform") {
+				if strings.HasSuffix(name, ".Transform") || strings.HasSuffix(name, ".Restore") {
 					return true
 				}
-				if f := m.staticCallee(x); (f != nil && f.Pkg() == m.Pkg) || isBuiltinCall(info, x, "copy") {
-					add("call", printNode(x))
+				f := m.staticCallee(x)
+				if f != nil && f.Pkg() == m.Pkg {
+					tok := "call " + name
+					if sig, ok := f.Type().(*types.Signature); ok && sig.Recv() != nil {
+						if n := namedOf(sig.Recv().Type()); n != nil && (m.isLeafType(n) || m.treeByNamed(n) != nil) {
+							tok = "call LEAF/TREE." + f.Name()
+						} else if n != nil && m.kindByStruct(n) != nil {
+							// the size class is the arm of a dispatch, not a difference
+							tok = "call NODE." + f.Name()
+						}
+					}
+					out[tok]++
+					if cu := m.ByObj[f]; cu != nil && cu.Body != nil {
+						calls[tok] = append(calls[tok], cu)
+					}
+				} else if isBuiltinCall(info, x, "copy") && len(x.Args) == 2 {
+					out["call copy→"+storeTarget(u, x.Args[0])]++
 				}
 			case *ast.AssignStmt:
-				for i, l := range x.Lhs {
+				for _, l := range x.Lhs {
 					root, through := rootVar(info, l)
 					isPos := false
 					if id, ok := ast.Unparen(l).(*ast.Ident); ok && id.Name == "depth" && x.Tok != token.DEFINE {
 						isPos = true
 					}
-					if through || isPos || (root != nil && root.Name() == "t") {
-						rhs := ""
-						if len(x.Rhs) == len(x.Lhs) {
-							rhs = printNode(x.Rhs[i])
-						}
-						add("store", printNode(l)+" "+x.Tok.String()+" "+rhs)
+					if through || isPos || (root != nil && m.isTreeRecv(root)) {
+						out["store "+storeTarget(u, l)]++
 					}
 				}
 			case *ast.IncDecStmt:
-				add("store", printNode(x))
+				root, through := rootVar(info, x.X)
+				id, isId := ast.Unparen(x.X).(*ast.Ident)
+				if through || (isId && id.Name == "depth") || (root != nil && m.isTreeRecv(root)) {
+					out["store "+storeTarget(u, x.X)]++
+				}
 			}
 			return true
-		})
-		return out
+		}
+		ast.Inspect(u.Body, visit)
 	}
+
 	for _, mn := range []string{"Delete", "Insert", "Search", "Minimum", "Maximum", "All", "Backward", "TopK", "BottomK", "Size"} {
 		cu, ru := coll.Methods[mn], ref.Methods[mn]
 		if cu == nil || ru == nil {
 			continue
 		}
-		a, b := bag(coll, cu), bag(ref, ru)
+		a, b := bagT{}, bagT{}
+		ca, cb := map[string][]*FuncUnit{}, map[string][]*FuncUnit{}
+		bagOf(cu, a, ca)
+		bagOf(ru, b, cb)
+		// a call only one copy makes is replaced by what the callee does – when that brings the
+		// copies closer (the callee makes calls the other copy has in surplus) or the callee makes
+		// no library calls of its own
+		for round := 0; round < 6; round++ {
+			changed := false
+			expand := func(x, y bagT, cx map[string][]*FuncUnit) {
+				for _, tok := range sortedKeys(x) {
+					n := x[tok]
+					if !strings.HasPrefix(tok, "call ") || y[tok] >= n || len(cx[tok]) == 0 {
+						continue
+					}
+					callee := cx[tok][0]
+					sub, subCalls := bagT{}, map[string][]*FuncUnit{}
+					bagOf(callee, sub, subCalls)
+					helps, anyCall := false, false
+					for st, sn := range sub {
+						if strings.HasPrefix(st, "call ") {
+							anyCall = true
+						}
+						if sn > 0 && y[st] > x[st] {
+							helps = true
+						}
+					}
+					if anyCall && !helps {
+						continue
+					}
+					extra := n - y[tok]
+					x[tok] -= extra
+					if x[tok] == 0 {
+						delete(x, tok)
+					}
+					for st, sn := range sub {
+						x[st] += sn * extra
+					}
+					for st, us := range subCalls {
+						cx[st] = append(cx[st], us...)
+					}
+					changed = true
+				}
+			}
+			expand(a, b, ca)
+			expand(b, a, cb)
+			if !changed {
+				break
+			}
+		}
 		var onlyA, onlyB []string
 		for s, n := range a {
 			if b[s] < n {
@@ -161,7 +356,7 @@ func ruleR36(c *Ctx) {
 			total += n
 		}
 		if len(onlyA) == 0 && len(onlyB) == 0 {
-			c.r.ok("R36", key, m.pos(cu.Decl.Pos()), fmt.Sprintf("%d node-layer calls, tree/node stores and position comparisons identical after renaming (leaf type, key variables, codec field); polarity, operand order and statement form are ignored", total), "C08", "C09", "C01")
+			c.r.ok("R36", key, m.pos(cu.Decl.Pos()), fmt.Sprintf("%d node-layer calls, tree/node stores and position comparisons agree (callee, store target, compared quantities and strictness); locals, conversions, statement form and helpers used by one copy only are looked through", total), "C08", "C09", "C01")
 		} else {
 			c.r.bad("R36", key, m.pos(cu.Decl.Pos()), fmt.Sprintf("the two copies of the algorithm disagree – only in %s: %s; only in the template instantiation: %s. One of them carries a slip (or was changed alone)", coll.File, joinShort(onlyA, 4), joinShort(onlyB, 4)), "C08", "C09", "C01")
 		}
